@@ -122,7 +122,7 @@ func classify(reason error) (string, []string) {
 		return "not-indexable", nil
 	case strings.HasPrefix(msg, "cannot concatenate "):
 		return "cannot-concat", nil
-	case strings.HasPrefix(msg, "cannot iterate "):
+	case strings.HasPrefix(msg, "cannot iterate "), strings.HasSuffix(msg, " cannot be iterated"):
 		return "cannot-iterate", nil
 	case strings.HasPrefix(msg, "cannot get length of "):
 		return "no-length", nil
@@ -134,6 +134,8 @@ func classify(reason error) (string, []string) {
 		return "wrong-type", nil
 	case keysValuesRE.MatchString(msg):
 		return "arity", nil
+	case msg == "cannot dissoc":
+		return "cannot-dissoc", nil
 	case msg == "multi indexing not implemented":
 		return "arity", nil
 	}
